@@ -19,7 +19,9 @@ def run(rep: core.Report):
     rep.rule("R09d", "every consumer of a mesh weights its sum by the multiplicity of the same q-point and normalises by the sum of weights; consumers that need an unreduced mesh test for it before they start", 8)
     rep.rule("R09e", "axis/weight typing of the mesh consumers (moments, DOS, thermal sums): every construct that sums over the irreducible q-points (sum/mean over that axis, np.dot/einsum contracting it, += in a loop over q) has the weight of the q-point on its operand, and the stored result is homogeneous of degree 0 in the weights (normalised by their sum)", 10)
     rep.rule("R09f", "precondition for reducing a mesh by point-group rotations: for each pair of lattice-equivalent axes both the mesh numbers and the half-shift flags of exactly these axes are compared (order b~c, c~a, a~b of get_lattice_vector_equivalence)", 6)
+    rep.rule("R09g", "q-point coordinates: irreducible q = (grid address + half-shift flag / 2) / mesh; the half-shift flags are, for shift components 0 and 1/2, exactly 'shift' (Gamma-centred) and 'shift xor even mesh' (Monkhorst-Pack), None otherwise (evaluated over the finite domain shift x parity x centring); a general shift is added as shift / mesh; length2mesh aligns exactly the lattice-equivalent pairs", 6)
     _r09a(rep)
+    _r09g(rep)
     _r09b(rep)
     _r09c(rep)
     _r09d(rep)
@@ -101,6 +103,134 @@ def _r09a(rep):
     rep.instance("R09a", GP, "extract_ir_grid_points", "every grid point of the mapping table is counted exactly once", r1 in ("CNT",), "the weights are not the multiplicities of the values of the mapping table", line=fn.lineno)
     rep.instance("R09a", GP, "extract_ir_grid_points", "ir_grid_points = distinct values of the same table", r0 == "UNIQ", "the irreducible points are not the set of values of the mapping table", line=fn.lineno)
     rep.instance("R09a", GP, "extract_ir_grid_points", f"returns ({r0}, {r1}): weights aligned with the irreducible points", (r0, r1) == ("UNIQ", "CNT"), "the returned weights are not the accumulated counts at the irreducible points (in the same order)", line=fn.lineno)
+
+
+def _fold(e, env):
+    """Constant folding of a pure arithmetic / comparison expression over Python floats and bools (np.abs, np.rint,
+    np.logical_xor, list, %, comparisons): used to tabulate an expression over a small finite domain."""
+    if isinstance(e, ast.Constant):
+        return e.value
+    if isinstance(e, ast.Name):
+        if e.id in env:
+            return env[e.id]
+        raise KeyError(e.id)
+    if isinstance(e, ast.Attribute):
+        t = core.src(e)
+        if t in env:
+            return env[t]
+        raise KeyError(t)
+    if isinstance(e, ast.UnaryOp):
+        v = _fold(e.operand, env)
+        return -v if isinstance(e.op, ast.USub) else (not v if isinstance(e.op, ast.Not) else v)
+    if isinstance(e, ast.BinOp):
+        a, b = _fold(e.left, env), _fold(e.right, env)
+        return {ast.Add: lambda: a + b, ast.Sub: lambda: a - b, ast.Mult: lambda: a * b, ast.Div: lambda: a / b, ast.Mod: lambda: a % b}[type(e.op)]()
+    if isinstance(e, ast.Compare) and len(e.ops) == 1:
+        a, b = _fold(e.left, env), _fold(e.comparators[0], env)
+        return {ast.Lt: a < b, ast.LtE: a <= b, ast.Gt: a > b, ast.GtE: a >= b, ast.Eq: a == b, ast.NotEq: a != b}[type(e.ops[0])]
+    if isinstance(e, ast.Call):
+        f = core.src(e.func)
+        args = [_fold(a, env) for a in e.args]
+        if f in ("np.abs", "abs"):
+            return abs(args[0])
+        if f in ("np.rint", "round"):
+            return float(round(args[0]))  # banker's rounding, as numpy
+        if f == "np.logical_xor":
+            return bool(args[0]) != bool(args[1])
+        if f in ("list", "np.array", "float", "int", "bool"):
+            return args[0]
+        if isinstance(e.func, ast.Attribute) and e.func.attr == "all" and not e.args:
+            return _fold(e.func.value, env)
+        raise KeyError(f)
+    raise KeyError(type(e).__name__)
+
+
+def _r09g(rep):
+    # (1) coordinates of the irreducible q-points
+    si = core.find_def(GP, "GridPoints._set_ir_qpoints")
+    tr = symalg.OpenPyTranslator(where="GridPoints._set_ir_qpoints")
+    env = tr.summary(si)
+    vals = tr.assigned.get("self._ir_qpoints", [])
+    ok = False
+    if vals:
+        got = vals[-1]
+        inner_g = got.args[0] if got.args else got  # first argument of the outer np.array(...)
+        inner_w = tr.expr(ast.parse("(self._grid_address[self._ir_grid_points] + np.array(self._is_shift) * 0.5) / self._mesh", mode="eval").body, env)
+        ok = symalg.same(inner_g, inner_w)[0]
+    rep.instance("R09g", GP, "GridPoints._set_ir_qpoints", "ir_qpoints = (grid_address[ir_grid_points] + is_shift / 2) / mesh", ok, "the coordinates of the irreducible q-points are not (address + half shift) / mesh: the phonons are evaluated at other points than the ones the weights belong to", line=si.lineno)
+    # (2) generic shift
+    init = core.find_def(GP, "GridPoints.__init__")
+    aug = [a for a in ast.walk(init) if isinstance(a, ast.AugAssign) and core.src(a.target) == "self._ir_qpoints"]
+    ok2 = len(aug) == 1 and isinstance(aug[0].op, ast.Add) and symalg.same(symalg.open_expr(core.src(aug[0].value)), symalg.open_expr("q_mesh_shift / self._mesh"))[0]
+    rep.instance("R09g", GP, "GridPoints.__init__", core.norm(core.src(aug[0]), 60) if aug else "<vanished>", ok2, "a general shift is not added as shift / mesh to the unshifted grid", line=init.lineno)
+    # (3) shift flags over the finite domain
+    sb = core.find_def(GP, "GridPoints._shift2boolean")
+    defs = {}
+    for st in ast.walk(sb):
+        if isinstance(st, ast.Assign) and isinstance(st.targets[0], ast.Name):
+            defs.setdefault(st.targets[0].id, []).append(st)
+    tests = [n for n in sb.body if isinstance(n, ast.If) and "diffby2" in core.src(n.test)]
+    bad = []
+    try:
+        if len(tests) != 1 or "diffby2" not in defs or "diff" not in defs:
+            raise KeyError("shape")
+        inner = [n for n in tests[0].body if isinstance(n, ast.If)]
+        if len(inner) != 1 or core.src(inner[0].test) != "is_gamma_center":
+            raise KeyError("gamma branch")
+        gamma_expr = [st.value for st in inner[0].body if isinstance(st, ast.Assign) and core.src(st.targets[0]) == "is_shift"][0]
+        mp_expr = [st.value for st in inner[0].orelse if isinstance(st, ast.Assign) and core.src(st.targets[0]) == "is_shift"][0]
+        else_none = [st for st in tests[0].orelse if isinstance(st, ast.Assign) and core.src(st.targets[0]) == "is_shift" and isinstance(st.value, ast.Constant) and st.value.value is None]
+        for shift in (0.0, 0.5, 1.0, -0.5, 0.25, 0.3):
+            for mesh in (3, 4):
+                env = {"shift": shift, "self._mesh": mesh}
+                env["diffby2"] = _fold(defs["diffby2"][0].value, env)
+                half = bool(_fold(tests[0].test, env))
+                want_half = shift in (0.0, 0.5, 1.0, -0.5)
+                if half != want_half:
+                    bad.append((shift, mesh, "zero-or-half test", half))
+                    continue
+                if not half:
+                    continue
+                env["diff"] = _fold(defs["diff"][0].value, env)
+                is_half = abs(shift - round(shift)) > 0.25
+                g = bool(_fold(gamma_expr, env))
+                m = bool(_fold(mp_expr, env))
+                if g != is_half:
+                    bad.append((shift, mesh, "Gamma-centred", g))
+                if m != (is_half != (mesh % 2 == 0)):
+                    bad.append((shift, mesh, "Monkhorst-Pack", m))
+        if not else_none:
+            bad.append(("other", "-", "general shift must give None", "missing"))
+        rep.instance("R09g", GP, "GridPoints._shift2boolean", "half-shift flags over shift in {0, 1/2, 1, -1/2, 1/4, 0.3} x mesh parity x centring", not bad,
+                     f"the half-shift flag is wrong for (shift, mesh, scheme, got) = {bad[:3]}: the grid handed to the symmetry search is not the grid the q-points are generated on", line=sb.lineno)
+    except (KeyError, IndexError) as ex_:
+        rep.unknown(f"R09g: _shift2boolean is not in the tabulated form ({ex_})")
+    # (4) length2mesh: the same pair discipline as _has_mesh_symmetry
+    lm = core.find_def(GP, "length2mesh")
+    me = [st.value for st in ast.walk(lm) if isinstance(st, ast.Assign) and core.src(st.targets[0]) == "mesh_equiv" and isinstance(st.value, ast.List)]
+    loops = [lp for lp in ast.walk(lm) if isinstance(lp, ast.For) and isinstance(lp.iter, ast.Call) and core.src(lp.iter.func) == "enumerate"]
+    ok4 = False
+    if len(me) == 1 and len(me[0].elts) == 3 and len(loops) == 1:
+        pairs_c = []
+        for el in me[0].elts:
+            idx = sorted(int(core.src(x.slice)) for x in ast.walk(el) if isinstance(x, ast.Subscript) and isinstance(x.slice, ast.Constant))
+            pairs_c.append(frozenset(idx))
+        it = loops[0].iter.args[0]
+        pairs_l = [frozenset(int(core.src(x)) for x in el.elts) for el in it.elts] if isinstance(it, (ast.Tuple, ast.List)) else []
+        iv = core.src(loops[0].target.elts[0]) if isinstance(loops[0].target, ast.Tuple) else "?"
+        cond = [n for n in loops[0].body if isinstance(n, ast.If)]
+        ok_idx = len(cond) == 1 and core.src(cond[0].test).replace(" ", "").replace("(", "").replace(")", "") == f"reclat_equiv[{iv}]andnotmesh_equiv[{iv}]"
+        ok4 = pairs_c == PAIRS and pairs_l == PAIRS and ok_idx
+    rep.instance("R09g", GP, "length2mesh", "mesh numbers of exactly the lattice-equivalent pairs (b~c, c~a, a~b) are aligned", ok4, "length2mesh compares or aligns the mesh numbers of the wrong pair of axes: the suggested mesh breaks the symmetry the reduction relies on", line=lm.lineno)
+    t = [core.src(c.args[0]) for c in ast.walk(lm) if isinstance(c, ast.Call) and core.src(c.func) == "get_lattice_vector_equivalence" and c.args]
+    o = None
+    for c in ast.walk(lm):
+        if isinstance(c, ast.Call) and core.src(c.func) == "get_lattice_vector_equivalence" and c.args:
+            o = _orientation(c.args[0], "rotations") or _orientation(c.args[0], "np.array(rotations)")
+    rep.instance("R09g", GP, "length2mesh", f"lattice equivalence from {t}", o in ("transposed", None) and bool(t), "length2mesh tests the equivalence of the reciprocal axes with untransposed rotations", line=lm.lineno)
+    ln = [st for st in ast.walk(lm) if isinstance(st, ast.Assign) and core.src(st.targets[0]) == "mesh_numbers"]
+    ok_n = bool(ln) and symalg.same(symalg.open_expr(core.src(ln[0].value)), symalg.open_expr("np.rint(rec_lat_lengths * length).astype(int)"))[0]
+    rep.instance("R09g", GP, "length2mesh", core.norm(core.src(ln[0]), 70) if ln else "<vanished>", ok_n, "mesh numbers are not rint(|a*| * length)", line=lm.lineno, nontrivial=False)
 
 
 def _r09b(rep):
@@ -400,4 +530,8 @@ def selftest():
     n("weights by bincount", GP, "    weights = np.zeros_like(grid_mapping_table)\n    for gp in grid_mapping_table:\n        weights[gp] += 1\n", "    weights = np.bincount(grid_mapping_table, minlength=len(grid_mapping_table))\n")
     n("weights by unique(return_counts)", GP, "    ir_grid_points = np.array(np.unique(grid_mapping_table), dtype=dtype)\n    weights = np.zeros_like(grid_mapping_table)\n    for gp in grid_mapping_table:\n        weights[gp] += 1\n    ir_weights = np.array(weights[ir_grid_points], dtype=dtype)", "    ir_grid_points, ir_weights = np.unique(grid_mapping_table, return_counts=True)\n    ir_grid_points = np.array(ir_grid_points, dtype=dtype)\n    ir_weights = np.array(ir_weights, dtype=dtype)")
     b("lattice equivalence with untransposed rotations", GP, "get_lattice_vector_equivalence([r.T for r in self._rotations])", "get_lattice_vector_equivalence([r for r in self._rotations])", "R09c", "_has_mesh_symmetry")
+    b("q-point coordinates with a quarter shift", GP, "        shift = np.array(self._is_shift) * 0.5", "        shift = np.array(self._is_shift) * 0.25", "R09g", "_set_ir_qpoints")
+    b("Monkhorst-Pack flag ignores the mesh parity", GP, "is_shift = list(np.logical_xor((diff > 0.1), (self._mesh % 2 == 0)) * 1)", "is_shift = list((diff > 0.1) * 1)", "R09g", "_shift2boolean")
+    b("length2mesh aligns the wrong pair", GP, "        for i, pair in enumerate(([1, 2], [2, 0], [0, 1])):", "        for i, pair in enumerate(([0, 1], [2, 0], [1, 2])):", "R09g", "length2mesh")
+    n("half-shift threshold written differently", GP, "                is_shift = list(diff > 0.1)", "                is_shift = list(diff > 0.25)")
     return V
